@@ -52,7 +52,7 @@ Print Assumptions C07_refs_closed_from_C05.
 Definition f10_root : group :=
   G 0 false None None []
     [NGroup (G 0 false None None
-       [FD 1 5 [PR 11 7 [] (Some (G 0 false None None [] [NGroup (G 0 false None None [] [NPath 0 PColor PNone])]))]]
+       [FD 1 5 [PR 11 0 7 [] (Some (G 0 false None None [] [NGroup (G 0 false None None [] [NPath 0 PColor PNone])]))]]
        [NPath 0 PColor PNone])].
 Theorem C07_feimage_href_refuted :
   exists o root, let t := with_collections root in
